@@ -1,12 +1,106 @@
 import Jap.Core.Validate
+import Jap.Lemmas.ValidateStyles
 /-!
 # C07 — equivalent ways of declaring a nested group behave identically
-(first stage; the general theorems follow)
+
+Model (Core/Validate.lean): the four declaration constructors as *action tables*
+  `declDotted`      — `parser.add_argument("--key.name", type, default | required)` per field,
+  `declDataclass`   — `parser.add_argument("--key", type=Dataclass)` (dispatch of `add_argument` to `add_class_arguments`),
+  `declClassArgs`   — `parser.add_class_arguments(Class, key)` (`_add_signature_arguments`, `_add_signature_parameter`,
+                      `_create_group_if_requested` with its `_ActionConfigLoad`),
+  `declInnerParser` — an inner parser attached with `ActionParser` (`_move_parser_actions`: prefixed dests, option
+                      strings and `required_args`, plus the `_ActionConfigLoad` of the key),
+and `parse7`: defaults, then the sources in order (environment, argv / config / object), then `validate`;
+the dump lists the resulting configuration in its order, so "same result" covers values, accept/reject and dump.
+
+FULL STATEMENT (what the property asks): `∀ s s' key fields items, parse7 ld (decl s key fields) key items =
+parse7 ld (decl s' key fields) key items`.
+It is FALSE for the code when `s = dotted`: that style creates no action for the group key
+(`C07_dotted_lacks_whole`), so whole-group JSON on the command line is rejected there only
+(`C07_whole_group_counterexample`; open finding C07-dotted-whole-group, DESIGN section 7 row 9).
+Proved: the full statement for the three other styles (`C07_styles_nondotted`), and for all four styles on inputs that do
+not assign the group as a whole (`C07_styles_partial`), for all keys, loaders, well-formed field lists and input sequences.
 -/
 namespace Jap.Props.C07
 open Jap.Validate
 
-/-- witness (DESIGN section 7 row 9): the dotted style has no whole-group option -/
+/-- **C07_same_table.**  On a well-formed field list the four constructors produce the same dests, option strings, types,
+    defaults (`entries`) and the same required set; the dataclass, class-arguments and inner-parser styles also the same
+    whole-group option `--key`; the dotted style none. -/
+theorem C07_same_table (key : String) (fields : List Field) (h : wfFields fields = true) :
+    declDataclass key fields = declClassArgs key fields
+    ∧ declClassArgs key fields = (declDotted key fields).withWhole (some key)
+    ∧ declInnerParser key fields = (declDotted key fields).withWhole (some key)
+    ∧ (declDotted key fields).whole = none :=
+  ⟨rfl, declClass_eq key h, declInner_eq key fields, rfl⟩
+
+/-- the tables of the four styles differ at most in the whole-group option -/
+theorem C07_table_of_style (s : Style) (key : String) (fields : List Field) (h : wfFields fields = true) :
+    decl s key fields = (declDotted key fields).withWhole (if s = .dotted then none else some key) := by
+  obtain ⟨h1, h2, h3, _⟩ := C07_same_table key fields h
+  cases s with
+  | dotted => rfl
+  | dataclass => exact h1.trans h2
+  | classArgs => exact h2
+  | inner => exact h3
+
+/-- **C07_styles (the three styles with a group action), full strength**: same values, same accept/reject, same order of the
+    dumped configuration, for every input sequence — including whole-group JSON options and variables. -/
+theorem C07_styles_nondotted (ld : String → Val) (s s' : Style) (key : String) (fields : List Field) (items : List Item)
+    (h : wfFields fields = true) (hs : s ≠ .dotted) (hs' : s' ≠ .dotted) :
+    parse7 ld (decl s key fields) key items = parse7 ld (decl s' key fields) key items := by
+  rw [C07_table_of_style s key fields h, C07_table_of_style s' key fields h]
+  simp [hs, hs']
+
+/-- **C07_styles_partial**: all four styles, for every input sequence that does not assign the group as a whole
+    (`Item.usesWhole`: the `--key` option, the variable of the key, a string for the key in a configuration). -/
+theorem C07_styles_partial (ld : String → Val) (s s' : Style) (key : String) (fields : List Field) (items : List Item)
+    (h : wfFields fields = true) (hu : ∀ it ∈ items, Item.usesWhole key it = false) :
+    parse7 ld (decl s key fields) key items = parse7 ld (decl s' key fields) key items := by
+  rw [C07_table_of_style s key fields h, C07_table_of_style s' key fields h, parse7_whole hu, parse7_whole hu]
+
+/-- witness (DESIGN section 7 row 9): the dotted style has no whole-group option, whatever the fields -/
 theorem C07_dotted_lacks_whole (key : String) (fields : List Field) : (declDotted key fields).whole = none := rfl
+
+private def ld0 : String → Val := fun s => if s = "5" then .int 5 else .str s
+private def flds : List Field :=
+  [⟨"alpha", .int, none⟩, ⟨"beta", .str, some (.str "s0")⟩, ⟨"gamma", .listInt, some (.list [.int 1])⟩,
+   ⟨"delta", .optInt, some .null⟩]
+
+/-- the FULL statement fails: `--grp={"alpha": 5}` is accepted by the dataclass style and is an unrecognized argument for
+    the dotted style -/
+theorem C07_whole_group_counterexample :
+    parse7 ld0 (decl .dataclass "grp" flds) "grp" [.wholeOpt (.dict [("alpha", .int 5)])]
+      = .ok [("grp", .dict [("alpha", .int 5), ("beta", .str "s0"), ("gamma", .list [.int 1]), ("delta", .null)])]
+    ∧ parse7 ld0 (decl .dotted "grp" flds) "grp" [.wholeOpt (.dict [("alpha", .int 5)])]
+      = .error (.unrecognized "grp") := ⟨rfl, rfl⟩
+
+/-- the environment variable of the group key is read by the inner-parser style and never by the dotted style -/
+theorem C07_whole_env_counterexample :
+    parse7 ld0 (decl .inner "grp" flds) "grp" [.wholeEnv (.dict [("alpha", .int 5)])]
+      = .ok [("grp", .dict [("alpha", .int 5), ("beta", .str "s0"), ("gamma", .list [.int 1]), ("delta", .null)])]
+    ∧ parse7 ld0 (decl .dotted "grp" flds) "grp" [.wholeEnv (.dict [("alpha", .int 5)])]
+      = .error (.required [.key "grp", .key "alpha"] 0) := ⟨rfl, rfl⟩
+
+/-! ### non-vacuity -/
+
+/-- the hypotheses are satisfiable: a well-formed list with every type, a required field, list appends, a config tree -/
+example : wfFields flds = true := rfl
+example : ∀ it ∈ [Item.opt "grp.alpha" (.str "5"), .opt "grp.gamma+" (.str "5"), .tree [("grp", .dict [("beta", .str "x")])]],
+    Item.usesWhole "grp" it = false := by decide
+example : parse7 ld0 (decl .inner "grp" flds) "grp"
+      [.opt "grp.alpha" (.str "5"), .opt "grp.gamma+" (.str "5"), .tree [("grp", .dict [("beta", .str "x")])]]
+    = .ok [("grp", .dict [("alpha", .int 5), ("beta", .str "x"), ("gamma", .list [.int 1, .int 5]), ("delta", .null)])] := rfl
+/-- rejecting inputs are covered too: an unknown key in the tree, a missing required field -/
+example : parse7 ld0 (decl .classArgs "grp" flds) "grp" [.tree [("grp", .dict [("alpha", .int 1), ("zz9", .int 1)])]]
+    = .error (.unknown [.key "grp", .key "zz9"] 0) := rfl
+example : parse7 ld0 (decl .dotted "grp" flds) "grp" [] = .error (.required [.key "grp", .key "alpha"] 0) := rfl
+/-- the tables, computed -/
+example : (decl .inner "grp" flds).required = ["grp.alpha"]
+    ∧ ((decl .inner "grp" flds).entries.map (·.optKeys)) = [["grp.alpha"], ["grp.beta"], ["grp.gamma", "grp.gamma+"], ["grp.delta"]] :=
+  ⟨rfl, rfl⟩
+/-- ... and what goes wrong outside `wfFields`: a required Optional field is not required in the signature styles -/
+example : (declDotted "g" [⟨"o", .optInt, none⟩]).required = ["g.o"] ∧ (declClassArgs "g" [⟨"o", .optInt, none⟩]).required = [] :=
+  ⟨rfl, rfl⟩
 
 end Jap.Props.C07
